@@ -1,0 +1,129 @@
+//go:build verif
+
+package props
+
+// Contracts for the deductive verifier in /verif (comment-only; compiled only with -tags verif).
+//
+//@ props C10
+//
+// builtinPre: what every object.BuiltInFunc may assume of its arguments (proved at the call sites in evaluator).
+//@ spec fun argsOK(args []object.PanObject) bool = forall i int :: {args[i]} 0 <= i && i < len(args) ==> isVal(args[i])
+//
+//@ func props.checkIntInfixArgs(args, propName, nilAs) self, other, err
+//@   requires argsOK(args)
+//@   let a0 := traceInt(args[0])
+//@   let a1 := traceInt(args[1])
+//@   let n1 := traceNil(args[1])
+//@   let n := len(args)
+//@   ensures  err == nil ==> n >= 2 && self != nil && self == a0
+//@   ensures  err == nil ==> (a1 != nil && other == a1) || (a1 == nil && n1 != nil && other == nilAs)
+//@   ensures  err != nil ==> self == nil && other == nil && fresh(err)
+//@   ensures  err == nil <==> (n >= 2 && a0 != nil && (a1 != nil || n1 != nil))
+//@   assigns  nothing
+//
+// ---- C10: exact integer arithmetic -------------------------------------------------------
+// a, b are the operands found along the prototype chains of args[0], args[1] (entry values).
+//
+//@ spec fun ipow(a int, b int) int
+//@ axiom ipow_zero: forall a int :: {ipow(a, 0)} ipow(a, 0) == 1
+//@ axiom ipow_succ: forall a int, b int :: {ipow(a, b)} b > 0 ==> ipow(a, b) == a * ipow(a, b - 1)
+//
+//@ func props.IntProps["+"](env, kwargs, args) res
+//@   requires argsOK(args)
+//@   let a := traceInt(args[0])
+//@   let b := traceInt(args[1])
+//@   let n := len(args)
+//@   track   n, a, b, a.Value, b.Value
+//@   ensures n >= 2 && a != nil && b != nil && fits64(a.Value + b.Value) ==> isT(res, *object.PanInt) && as(res, *object.PanInt).Value == a.Value + b.Value
+//@   ensures n >= 2 && a != nil && b == nil && traceNil(args[1]) != nil ==> isT(res, *object.PanInt) && as(res, *object.PanInt).Value == a.Value
+//@   assigns nothing
+//
+//@ func props.IntProps["-"](env, kwargs, args) res
+//@   requires argsOK(args)
+//@   let a := traceInt(args[0])
+//@   let b := traceInt(args[1])
+//@   let n := len(args)
+//@   track   n, a, b, a.Value, b.Value
+//@   ensures n >= 2 && a != nil && b != nil && fits64(a.Value - b.Value) ==> isT(res, *object.PanInt) && as(res, *object.PanInt).Value == a.Value - b.Value
+//@   ensures n >= 2 && a != nil && b == nil && traceNil(args[1]) != nil ==> isT(res, *object.PanInt) && as(res, *object.PanInt).Value == a.Value
+//@   assigns nothing
+//
+//@ func props.IntProps["*"](env, kwargs, args) res
+//@   requires argsOK(args)
+//@   let a := traceInt(args[0])
+//@   let b := traceInt(args[1])
+//@   let n := len(args)
+//@   track   n, a, b, a.Value, b.Value
+//@   ensures n >= 2 && a != nil && b != nil && fits64(a.Value * b.Value) ==> isT(res, *object.PanInt) && as(res, *object.PanInt).Value == a.Value * b.Value
+//@   ensures n >= 2 && a != nil && b == nil && traceNil(args[1]) != nil ==> isT(res, *object.PanInt) && as(res, *object.PanInt).Value == a.Value
+//@   assigns nothing
+//
+//@ func props.IntProps["-%"](env, kwargs, args) res
+//@   requires argsOK(args)
+//@   let a := traceInt(args[0])
+//@   let n := len(args)
+//@   ensures n >= 1 && a != nil && fits64(0 - a.Value) ==> isT(res, *object.PanInt) && as(res, *object.PanInt).Value == 0 - a.Value
+//@   assigns nothing
+//
+// floor quotient: q with q*b <= a < (q+1)*b for b > 0, q*b >= a > (q+1)*b for b < 0
+//@ func props.IntProps["//"](env, kwargs, args) res
+//@   requires argsOK(args)
+//@   let a := traceInt(args[0])
+//@   let b := traceInt(args[1])
+//@   let n := len(args)
+//@   track   n, a, b, a.Value, b.Value
+//@   ensures n >= 2 && a != nil && b != nil && b.Value == 0 ==> isT(res, *object.PanErr) && as(res, *object.PanErr).ErrKind == object.ZeroDivisionErr
+//@   ensures n >= 2 && a != nil && b != nil && b.Value > 0 ==> isT(res, *object.PanInt) && as(res, *object.PanInt).Value * b.Value <= a.Value && a.Value < (as(res, *object.PanInt).Value + 1) * b.Value
+//@   ensures n >= 2 && a != nil && b != nil && b.Value < 0 && !(a.Value == MININT64 && b.Value == 0 - 1) ==> isT(res, *object.PanInt) && as(res, *object.PanInt).Value * b.Value >= a.Value && a.Value > (as(res, *object.PanInt).Value + 1) * b.Value
+//@   assigns nothing
+//
+// remainder r with |r| < |b| and b dividing a - r
+//@ func props.IntProps["%"](env, kwargs, args) res
+//@   requires argsOK(args)
+//@   let a := traceInt(args[0])
+//@   let b := traceInt(args[1])
+//@   let n := len(args)
+//@   track   n, a, b, a.Value, b.Value
+//@   ensures n >= 2 && a != nil && b != nil && b.Value == 0 ==> isT(res, *object.PanErr) && as(res, *object.PanErr).ErrKind == object.ZeroDivisionErr
+//@   ensures n >= 2 && a != nil && b != nil && b.Value != 0 ==> isT(res, *object.PanInt) && abs_i(as(res, *object.PanInt).Value) < abs_i(b.Value) && (exists q int :: a.Value - as(res, *object.PanInt).Value == q * b.Value)
+//@   assigns nothing
+//
+//@ func props.IntProps["/"](env, kwargs, args) res
+//@   requires argsOK(args)
+//@   let a := traceInt(args[0])
+//@   let b := traceInt(args[1])
+//@   let n := len(args)
+//@   track   n, a, b, a.Value, b.Value
+//@   ensures n >= 2 && a != nil && b != nil && b.Value == 0 ==> isT(res, *object.PanErr) && as(res, *object.PanErr).ErrKind == object.ZeroDivisionErr
+//@   ensures n >= 2 && a != nil && b != nil && b.Value != 0 ==> isT(res, *object.PanFloat) && as(res, *object.PanFloat).Value == fdiv(i2f(a.Value), i2f(b.Value))
+//@   assigns nothing
+//
+//@ func props.IntProps["<=>"](env, kwargs, args) res
+//@   requires argsOK(args)
+//@   let a := traceInt(args[0])
+//@   let b := traceInt(args[1])
+//@   let n := len(args)
+//@   track   n, a, b, a.Value, b.Value
+//@   ensures n >= 2 && a != nil && b != nil ==> isT(res, *object.PanInt) && as(res, *object.PanInt).Value == (a.Value > b.Value ? 1 : (a.Value == b.Value ? 0 : 0 - 1))
+//@   assigns nothing
+//
+//@ func props.IntProps["**"](env, kwargs, args) res
+//@   requires argsOK(args)
+//@   let a := traceInt(args[0])
+//@   let b := traceInt(args[1])
+//@   let n := len(args)
+//@   track   n, a, b, a.Value, b.Value
+//@   ensures n >= 2 && a != nil && b != nil && b.Value >= 0 && fits64(ipow(a.Value, b.Value)) ==> isT(res, *object.PanInt) && as(res, *object.PanInt).Value == ipow(a.Value, b.Value)
+//@   assigns nothing
+//
+// float fallback of the int operators: only nil-safety of the results is needed by C10
+//@ func props.toPanFloat(obj) res, ok
+//@   requires isVal(obj)
+//@   ensures  ok ==> res != nil
+//@   assigns  nothing
+//
+//@ func props.checkFloatInfixArgs(args, propName, nilAs) self, other, err
+//@   requires argsOK(args)
+//@   requires nilAs != nil
+//@   ensures  err == nil ==> self != nil && other != nil
+//@   assigns  nothing
